@@ -188,6 +188,8 @@ def cpu_plan(family, n_quick, n_thorough, rule, design=(), extra_runs=(), exhaus
             dz += [{"module": d["module"], "cfg": d["cfg"].replace("tlbq", "tlb"), "workers": 16, "timeout": 7200, "xmx": "16g"}
                    for d in design if "tlbq" in d["cfg"]]
         return {"design": dz, "runs": runs, "trace_module": "Trace_Cpu",
+                # C17: TLAPS proof (257 obligations) that the two C17 invariants hold at every nesting depth
+                "proofs": ["proofs/IntrProof.tla"] if family == "intr" else [],
                 "level": "model_checking", "rule": rule, "assumptions": CPU_ASSUME,
                 "exhaustive": exhaustive, "exhaustive_note": exhaustive_note,
                 "replay_lines": cpu_replay_lines}
